@@ -106,6 +106,8 @@ pub struct Net {
     pub manual_result: BTreeMap<usize, bool>,
     pub conns: Vec<Arc<Mutex<ConnShared>>>,
     pub scripts: BTreeMap<String, Script>,
+    /// script for addresses without an entry in `scripts`
+    pub default_script: Script,
     /// dial-time network faults (refuse/hang/late, upgrade failures) enabled
     pub faults: bool,
     /// identity faults (C05) per-mille
@@ -132,6 +134,7 @@ impl Net {
             manual_result: BTreeMap::new(),
             conns: vec![],
             scripts: BTreeMap::new(),
+            default_script: Script::Default,
             faults: true,
             auth_fault_permille: 0,
             forced_auth: VecDeque::new(),
@@ -285,7 +288,7 @@ impl Future for DialFut {
             let seq = next_seq();
             with_net(|n| n.dials[this.rec].first_poll = Some((seq, elapsed())));
             trace!("n{} transport dial #{} {} first polled", this.node, this.rec, this.addr);
-            let sc = with_net(|n| n.scripts.get(&key_of(&this.addr)).cloned()).unwrap_or(Script::Default);
+            let sc = with_net(|n| n.scripts.get(&key_of(&this.addr)).cloned().unwrap_or(n.default_script.clone()));
             match sc {
                 Script::Refuse => this.outcome = Some(Err(io::ErrorKind::ConnectionRefused)),
                 Script::Hang => {}
